@@ -77,7 +77,8 @@ def main():
                     jobs.append((u, 'main#%d' % i, excl + ('-DCASE_PRED=(%s)' % cpred,)))
             else:
                 jobs.append((u, 'main', excl))
-            jobs.append((u, 'vacuity', excl + ('-DVAC_NORMAL=0', '-DVAC_EXC=0')))
+            if not u.get('bounded'):
+                jobs.append((u, 'vacuity', excl + ('-DVAC_NORMAL=0', '-DVAC_EXC=0')))
             for f in kfs:
                 jobs.append((u, 'kf:' + f['id'], ('-DKF_EXCLUDE=(%s)' % f['pred'],)))
         results = {}
@@ -109,9 +110,36 @@ def main():
             results[(u['id'], 'main')] = merged
     # ------------------------------------------------------------------ evaluation
     infra, failures, total, discharged, vac_problems = [], [], 0, 0, []
-    samples, fn_under_contract, solver_s, by_unit = [], [], 0.0, {}
+    samples, fn_under_contract, solver_s, by_unit, bounded_units = [], [], 0.0, {}, {}
     for u in units:
         rm = results[(u['id'], 'main')]
+        if u.get('bounded'):
+            # bounded stand-in: never counted as proved; its reachability guards play the role of the vacuity run
+            if rm['status'] != 'ok':
+                infra.append('%s: %s' % (u['id'], rm.get('error'))); continue
+            solver_s += rm.get('seconds', 0)
+            obl_b = rm['obligations']
+            reach_g = [o for o in obl_b if o['desc'].startswith('REACHABILITY')]
+            if not reach_g or any(o['status'] != 'FAILURE' for o in reach_g):
+                infra.append('%s: reachability guard of the bounded stand-in is missing or not reachable (vacuous)' % u['id'])
+            unw_b = [o for o in obl_b if 'unwinding assertion' in o['desc'] and o['status'] == 'FAILURE']
+            if unw_b:
+                infra.append('%s: the stated bound %s does not cover the loops (%s)' % (u['id'], u['bounded'], unw_b[0]['name']))
+            rel_b = [o for o in obl_b if not o['desc'].startswith('REACHABILITY') and relevant(o, prop, u)]
+            ok_b = [o for o in rel_b if o['status'] == 'SUCCESS']
+            bounded_units[u['id']] = {'function': (u.get('extra_reach') or [u['target']])[0], 'bound': 'loops unwound %s times; %s' % (u['bounded'], u.get('bound_text', '')),
+                                      'obligations': len(rel_b), 'discharged': len(ok_b), 'seconds': round(rm.get('seconds', 0), 2),
+                                      'callees_replaced_by_their_specification': u.get('stubbed', []), 'backend': 'cbmc 6.11 --unwind %s --unwinding-assertions + cadical, concrete L0 (ghost/l0c.h)' % u['bounded']}
+            any_failure_b = any(o['status'] == 'FAILURE' for o in rel_b)
+            for o in rel_b:
+                if o['status'] == 'FAILURE':
+                    if o['desc'].startswith('UNDECIDED:'):
+                        infra.append('%s: %s' % (u['id'], o['desc']))
+                    else:
+                        failures.append((u, o))
+                elif o['status'] != 'SUCCESS' and not any_failure_b:
+                    infra.append('%s: obligation %s left %s by the verifier' % (u['id'], o['name'], o['status']))
+            continue
         rv = results[(u['id'], 'vacuity')]
         if rm['status'] != 'ok':
             infra.append('%s: %s' % (u['id'], rm.get('error'))); continue
@@ -187,7 +215,8 @@ def main():
             'trusted_base': U.TRUSTED_BASE,
             'functions_under_contract': sorted(set(fn_under_contract)),
             'units': by_unit, 'solver_seconds': round(solver_s, 1), 'samples': samples[:12],
-            'bounded': U.BOUNDED.get(prop, []),
+            'bounded': bounded_units,
+            'bounded_note': 'units listed under "bounded" are stand-ins checked up to a stated bound on concrete memory; their obligations are NOT included in obligations/discharged and are not claimed as proved',
             'not_under_contract': U.NOT_UNDER_CONTRACT.get(prop, []),
             'lowering_drops': U.LOWERING_DROPS,
             'undecided': infra,
